@@ -115,6 +115,8 @@ impl Parser {
                 HexMacroState::FirstHex => {
                     if ch == ';' && read_repeat {
                         read_repeat = false;
+                        #[cfg(icy_engine_verif)]
+                        crate::verif::tick((repeat_number.max(0) as u64).saturating_mul(repeat_rec.len() as u64 + 1));
                         (0..repeat_number).for_each(|_| marco_rec.push_str(&repeat_rec));
                         continue;
                     }
@@ -157,6 +159,8 @@ impl Parser {
             }
         }
         if read_repeat {
+            #[cfg(icy_engine_verif)]
+            crate::verif::tick((repeat_number.max(0) as u64).saturating_mul(repeat_rec.len() as u64 + 1));
             (0..repeat_number).for_each(|_| marco_rec.push_str(&repeat_rec));
         }
 
